@@ -98,9 +98,11 @@ class TraceProp(Prop):
         if spec.get('shape') == 'aliased' and rng.random() < 0.8:
             # transactions that change ONLY the attribute whose name differs from its column name
             pos = rng.randrange(0, len(prog) + 1)
-            prog = ([['add', 'Article', [7], {'name_': 1, 'content': 1}], ['commit']] + prog[:pos] +
-                    [['commit'], ['set', 'Article', [7], 'name_', 2], ['commit'], ['set', 'Article', [7], 'content', 2], ['flush'],
-                     ['set', 'Article', [7], 'name_', 3], ['commit']] + prog[pos:])
+            # attribute names of the columns name / content (the 'clash' variant names them content / body)
+            a1, a2 = [c.get('attr', c['name']) for c in spec['classes'][0]['columns'][1:3]]
+            prog = ([['add', 'Article', [7], {a1: 1, a2: 1}], ['commit']] + prog[:pos] +
+                    [['commit'], ['set', 'Article', [7], a1, 2], ['commit'], ['set', 'Article', [7], a2, 2], ['flush'],
+                     ['set', 'Article', [7], a1, 3], ['commit']] + prog[pos:])
         case = {'spec': spec, 'autoflush': autoflush, 'program': prog}
         import os
         if rng.random() < float(os.environ.get('VERIF_JOIN_P', '0.1')):
@@ -438,6 +440,8 @@ class C01(TraceProp):
             yield c
         for c in db_maintained_cases(rng, 8 if tier == 'quick' else 150):
             yield c
+        for _ in range(12 if tier == 'quick' else 400):
+            yield proggen.sp_then_touch_case(rng)
 
     def pick_plugins(self, rng):
         return None
@@ -459,6 +463,42 @@ class C02(TraceProp):
             'Plugin.transaction_args: every record must carry a stamp handed out by the plugin, unshared and unchanged; '
             'non-trivial = >= 2 transactions with a versioned change or >= 2 flushes in one transaction')
     needs_tags = ['multi_flush_tx', 'multi_tx', 'ev:manualtx', 'shape:comment', 'no_record_tx', 'ev:spcommit', 'plugin:stamp']
+
+    def gen(self, rng, tier):
+        for c in TraceProp.gen(self, rng, tier):
+            yield c
+        for _ in range(8 if tier == 'quick' else 200):
+            yield proggen.sp_then_touch_case(rng)
+        # "every plugin set": the activity plugin, activities kept referenced across transactions that version nothing
+        from .c18 import C18
+        for _ in range(14 if tier == 'quick' else 300):
+            c = C18().make_case(rng, tier)
+            c['family'] = 'activity_plugin'
+            yield c
+        # ... and transactions that change only a non-versioned class / an excluded column / nothing (same value)
+        # while the application still holds activities of earlier transactions
+        from .. import envs as _e
+        for _ in range(14 if tier == 'quick' else 300):
+            spec = _e.shape_articles({'strategy': rng.choice(['validity', 'subquery'])}, exclude=['secret'], with_comment=True,
+                                     plugins=['activity'])
+            spec['shape'] = 'comment'
+            prog = [['add', 'Article', [1], {'name': 1}], ['add', 'Comment', [1], {'text': 1}], ['commit'],
+                    ['set', 'Article', [1], 'name', 2], ['flush'], ['activity', 1, 'Article', [1], None, None], ['commit']]
+            for _t in range(rng.choice([1, 2, 3])):
+                k = rng.random()
+                if k < 0.4:
+                    prog += [['set', 'Comment', [1], 'text', rng.randrange(2, 9)]]
+                elif k < 0.6:
+                    prog += [['add', 'Comment', [2 + _t], {'text': 1}]]
+                elif k < 0.8:
+                    prog += [['set', 'Article', [1], 'secret', rng.randrange(2, 9)]]
+                else:
+                    prog += [['set', 'Article', [1], 'name', 2], ['set', 'Comment', [1], 'text', 11 + _t]]
+                if rng.random() < 0.5:
+                    prog += [['flush']]
+                prog += [['commit']]
+            prog += [['set', 'Article', [1], 'name', 5], ['commit']]
+            yield {'spec': spec, 'autoflush': False, 'program': prog, 'family': 'old_activity_and_non_versioned_changes'}
 
     def pick_plugins(self, rng):
         # None = random_spec's own choice of continuum plugins; 'stamp' is the harness plugin that supplies an
@@ -526,6 +566,8 @@ class C11(TraceProp):
             yield c
         for c in db_maintained_cases(rng, 8 if tier == 'quick' else 150):
             yield c
+        for _ in range(12 if tier == 'quick' else 400):
+            yield proggen.sp_then_touch_case(rng)
         from .. import envs as _envs
         # a key deleted in one transaction and re-used in a later one whose row is written by several flushes
         for _ in range(6 if tier == 'quick' else 100):
